@@ -56,7 +56,9 @@ def cells(n, k, pattern=frozenset()):
     out = []
     for m in range(n - 1):
         if m not in pattern: out.append(("open", m))
+    tw = knot_witness(n, pattern)
     for m in range(1, n):
+        if tw[m] == tw[0]: continue          # a knot equal to the first knot is outside (first knot, last knot]
         out.append(("knot", m))
     return out
 
